@@ -4,15 +4,22 @@ Proof: Props/C18.v over Model/Loader.v (compounds are [Compound h cargs body k] 
 are arbitrary staged programs: nested compounds, barriers / bvalue inside, tuple or constant results).
 Tie: generated jugfiles with CompoundTaskGenerator builders x start stores {empty, some inner results,
 all inner results, collapsed (only what is in scope at the end), everything, random, some with a
-non-sequential value} x random sequences of  load / one phase (init + execution_loop) / `jug execute`
-/ `jug cleanup` / `jug status`  run with the REAL code on dict and file stores; after every step the
+non-sequential value, some with a key no task has} x lock states {none; stale locks on the compounds'
+hashes (a worker killed between storing the value and releasing the lock); locks held / marked failed
+by others on any hashes of the program: compounds, inner tasks, tasks of other branches} x random
+sequences of  load / one phase (init + execution_loop) / `jug execute` / `jug cleanup` /
+`jug cleanup --keep-locks` / `jug status`  run with the REAL code on dict and file stores; after every step the
 loaded task list (by interned real hash), the __jug__hasbarrier__ flag, the tasks executed (hook
 execute.task-executed1), the whole store (keys and values) and the number of complete tasks are
-compared in coqc with Model.Loader (load / exec_all / run_phases / cleanup).
+compared in coqc with Model.Loader (load / exec_all on the tasks whose lock is free / run_phases_l /
+cleanup).  The model's loader has no lock parameter: whatever the locks, what is loaded (collapsed or
+expanded) must be [load store program].
 Search: oracles on the real objects, independent of Coq: a builder ran although the compound's hash
 was stored (marker at the top of every builder); value stored under a compound's hash vs. a plain
 Python evaluation of the builder's result; a second `jug execute` runs something; cleanup removed the
-result of a loaded task / kept a key that no loaded task has / changed what is loaded or check."""
+result of a loaded task / kept a key that no loaded task has / changed what is loaded or check; locks of
+others changed by load / phase / execute / cleanup --keep-locks, or left by plain cleanup; a task run although
+its lock is held by someone else."""
 import os
 import shutil
 
@@ -30,9 +37,9 @@ from jug.backends.file_store import file_store
 
 EVIDENCE = dict(
     level='proof',
-    rule='one evaluation = one step (load / phase / execute / cleanup / status) of a sequence run with the real code on '
-         'one (jugfile, start store, backend); non-trivial when the jugfile has a compound on its sequential path; '
-         'distinct = distinct (program term, start store, step sequence)',
+    rule='one evaluation = one step (load / phase / execute / cleanup / cleanup --keep-locks / status) of a sequence run '
+         'with the real code on one (jugfile, start store, locks held / failed by others, backend); non-trivial when the '
+         'jugfile has a compound on its sequential path; distinct = distinct (program term, start store, locks, step sequence)',
     explanation='Coq theorems over the loader model (compound = builder in place + one task with the probe hash; '
                 'collapse; cleanup) + differential evaluation against CompoundTaskGenerator / compound_task_execute / '
                 'execute / cleanup / status of jug on generated builders',
@@ -65,12 +72,13 @@ NESTED = {'op': 'def', 'var': 't1', 'fn': 'g', 'args': [{'c': 1}, {'c': 2}],
 CORPUS = [('twice', TWICE), ('nested-with-barrier', NESTED)]
 
 PREAMBLE = lg.COQ_PREAMBLE + '''
-Inductive cop := OLoad | OPhase | OExecute | OCleanup.
+Inductive cop := OLoad | OPhase | OExecute | OCleanup | OCleanupKeep.
 (* after the step: alltasks (ids), __jug__hasbarrier__, tasks executed, the store, number of loaded tasks
    with a result, number without *)
 Definition cobs := (list tid * bool * list tid * store * nat * nat)%type.
 Definition ncomplete (st : store) (ts : list task) : nat := List.length (filter (fun t => stored st (tid_of t)) ts).
-Fixpoint run_ops (p : jprog) (st : store) (ops : list (cop * cobs)) : bool :=
+(* [locks]: the hashes whose lock is held or marked failed by someone else.  [load], [cleanup] do not take them. *)
+Fixpoint run_ops (p : jprog) (st : store) (locks : list tid) (ops : list (cop * cobs)) : bool :=
   match ops with
   | [] => true
   | (op, (ts, hb, ex, sto, nc, ni)) :: r =>
@@ -79,24 +87,27 @@ Fixpoint run_ops (p : jprog) (st : store) (ops : list (cop * cobs)) : bool :=
       | OLoad =>
           pos_list_eqb (ids (l_tasks l)) ts && Bool.eqb (l_hasbarrier l) hb && pos_list_eqb [] ex && store_eqb st sto &&
           Nat.eqb (ncomplete st (l_tasks l)) nc && Nat.eqb (List.length (l_tasks l) - ncomplete st (l_tasks l)) ni &&
-          run_ops p st r
+          run_ops p st locks r
       | OPhase =>
-          let '(st1, e) := exec_all st (l_tasks l) in
+          let '(st1, e) := exec_all st (unlocked locks (l_tasks l)) in
           pos_list_eqb (ids (l_tasks l)) ts && Bool.eqb (l_hasbarrier l) hb && pos_list_eqb e ex && store_eqb st1 sto &&
-          run_ops p st1 r
+          run_ops p st1 locks r
       | OExecute =>
-          let '(st1, exs) := run_phases 12 st p in
-          pos_list_eqb (List.concat exs) ex && store_eqb st1 sto && run_ops p st1 r
+          let '(st1, exs) := run_phases_l locks 12 st p in
+          pos_list_eqb (List.concat exs) ex && store_eqb st1 sto && run_ops p st1 locks r
       | OCleanup =>
           let st1 := cleanup st p in
-          pos_list_eqb (ids (l_tasks l)) ts && Bool.eqb (l_hasbarrier l) hb && store_eqb st1 sto && run_ops p st1 r
+          pos_list_eqb (ids (l_tasks l)) ts && Bool.eqb (l_hasbarrier l) hb && store_eqb st1 sto && run_ops p st1 [] r
+      | OCleanupKeep =>
+          let st1 := cleanup st p in
+          pos_list_eqb (ids (l_tasks l)) ts && Bool.eqb (l_hasbarrier l) hb && store_eqb st1 sto && run_ops p st1 locks r
       end
   end.
-Definition chk_seq (c : jprog * store * list (cop * cobs)) : bool := let '(p, st, ops) := c in run_ops p st ops.
+Definition chk_seq (c : jprog * store * list tid * list (cop * cobs)) : bool := let '(p, st, locks, ops) := c in run_ops p st locks ops.
 '''
-CASE_TYPE = 'jprog * store * list (cop * cobs)'
-OPS = ('load', 'phase', 'execute', 'cleanup')
-OP_COQ = {'load': 'OLoad', 'phase': 'OPhase', 'execute': 'OExecute', 'cleanup': 'OCleanup'}
+CASE_TYPE = 'jprog * store * list tid * list (cop * cobs)'
+OPS = ('load', 'phase', 'execute', 'cleanup', 'cleanup_keep')
+OP_COQ = {'load': 'OLoad', 'phase': 'OPhase', 'execute': 'OExecute', 'cleanup': 'OCleanup', 'cleanup_keep': 'OCleanupKeep'}
 
 
 class Env:
@@ -119,6 +130,13 @@ class Env:
             s.close()
         return r
 
+    def locks(self):
+        s = self.open()
+        r = lg.list_locks(s)
+        if self.backend == 'file':
+            s.close()
+        return r
+
 
 def real_phase(sc, store):
     """jug.init + execution_loop once (what one iteration of ExecuteCommand's loop does)"""
@@ -128,7 +146,7 @@ def real_phase(sc, store):
     executed = []
     register_hook('execute.task-executed1', lambda t: executed.append(lg.hx(t.hash())))
     try:
-        with jugrun.quiet():
+        with jugrun.quiet(), lg.no_zero_sleep():
             opts = lg.exec_options(sc)
             jug.jug.execution_loop(list(jug.task.alltasks), opts)
     finally:
@@ -144,10 +162,10 @@ def real_execute_hooked(sc, target, via_main):
     return code, mlog, out, executed
 
 
-def real_cleanup(sc, store):
+def real_cleanup(sc, store, keep_locks=False):
     from jug.subcommands import cmdapi
     r = lg.real_init(sc, store)
-    opts = jug.options.parse(['cleanup', sc.jugfile, '--jugdir', 'dict_store'])
+    opts = jug.options.parse(['cleanup', sc.jugfile, '--jugdir', 'dict_store'] + (['--keep-locks'] if keep_locks else []))
     with jugrun.quiet():
         cmdapi.run('cleanup', options=opts, store=r['store'], jugspace=r['space'])
     return r
@@ -173,10 +191,11 @@ def real_status(sc, target):
     m = re.search(r'All tasks complete \((\d+) tasks\)', txt)
     if m:
         return int(m.group(1)), 0, n
-    m = re.search(r'(\d+) tasks waiting to be run, (\d+) failed, (\d+) complete', txt)
+    m = re.search(r'(\d+) tasks waiting to be run, (\d+) failed, (\d+) complete, \((none|\d+) active\)', txt)
     if not m:
         raise lg.HarnessError('cannot parse jug status output: %r' % txt[-200:])
-    return int(m.group(3)), int(m.group(1)) + int(m.group(2)), n
+    active = 0 if m.group(4) == 'none' else int(m.group(4))
+    return int(m.group(3)), int(m.group(1)) + int(m.group(2)) + active, n
 
 
 class SeqRun:
@@ -202,32 +221,36 @@ class SeqRun:
             if n in self.bmarks and self.bmarks[n] in before:
                 self.viol('a builder ran although the hash of its compound is stored', compound=self.bmarks[n], marker=n, **ctx)
 
-    def run(self, start, ops, backend, root):
+    def run(self, start, ops, backend, root, held=(), failed=()):
         try:
-            return self._run(start, ops, backend, root)
+            return self._run(start, ops, backend, root, held, failed)
         except (lg.HarnessError, SystemExit):
             raise
         except Exception as e:                     # raised by the code under test outside the step itself
             from jug.hooks.register import reset_all_hooks
             reset_all_hooks()
             self.viol('jug raised an exception', exception='%s: %s' % (type(e).__name__, str(e)[:300]),
-                      start=[[h, v] for h, v in start], backend=backend, ops=list(ops))
+                      start=[[h, v] for h, v in start], backend=backend, ops=list(ops), held=list(held), failed=list(failed))
             return None
 
-    def _run(self, start, ops, backend, root):
-        """start: [(hash, value)], ops: list of op names.  Returns (coq literal, meta) or None."""
+    def _run(self, start, ops, backend, root, held=(), failed=()):
+        """start: [(hash, value)], held / failed: hashes whose lock another worker holds / has marked failed,
+        ops: list of op names.  Returns (coq literal, meta) or None."""
         ck, it = self.ck, self.it
         env = Env(backend, root)
         s = env.open()
         lg.fill_store(s, start)
+        lg.set_locks(s, held=held, failed=failed)
         if backend == 'file':
             s.close()
         agrees = all(dict(self.R).get(h) == v for h, v in start)
         steps, metas = [], []
-        ctx0 = {'start': [[h, v] for h, v in start], 'backend': backend, 'ops': list(ops)}
+        ctx0 = {'start': [[h, v] for h, v in start], 'backend': backend, 'ops': list(ops), 'held': sorted(held), 'failed': sorted(failed)}
+        locks_now = (sorted(held), sorted(failed))
         for k, op in enumerate(ops):
             ctx = dict(ctx0, step=k)
             before = env.items()
+            blocked = set(locks_now[0]) | set(locks_now[1])
             s = env.open()
             tasks, hb, executed = [], False, []
             try:
@@ -249,8 +272,8 @@ class SeqRun:
                         return None
                     if backend == 'file':
                         s = env.open()
-                elif op == 'cleanup':
-                    r = real_cleanup(self.sc, s)
+                elif op in ('cleanup', 'cleanup_keep'):
+                    r = real_cleanup(self.sc, s, keep_locks=(op == 'cleanup_keep'))
                     tasks, hb = r['tasks'], r['hasbarrier']
                     self.builder_oracle(r['marks'], before, ctx)
             except SystemExit:
@@ -277,7 +300,17 @@ class SeqRun:
             # ---- oracles on the real code
             if op in ('load', 'cleanup') and after != before and op == 'load':
                 self.viol('loading the jugfile changed the store', **ctx)
-            if op == 'cleanup':
+            # locks that are not this worker's: only plain cleanup removes them; this worker leaves none of its own
+            locks_after = env.locks()
+            want = ([], []) if op == 'cleanup' else locks_now
+            if locks_after != want:
+                self.viol('locks after the step are not what they should be (others\' locks kept, except by plain cleanup; '
+                          'none of this worker left)', locks_before=list(locks_now), locks_after=list(locks_after), op=op, **ctx)
+            locks_now = locks_after
+            ran_blocked = [h for h in executed if h in blocked]
+            if ran_blocked:
+                self.viol('a task was executed although its lock is held / marked failed by someone else', keys=sorted(ran_blocked), op=op, **ctx)
+            if op in ('cleanup', 'cleanup_keep'):
                 keep = set(tasks)
                 bad = [h for h in before if h in keep and after.get(h) != before[h]] + [h for h in after if h not in keep]
                 if bad:
@@ -291,9 +324,9 @@ class SeqRun:
             if op == 'execute':
                 exp = dict(self.R)
                 if agrees:
-                    top = [it.hash_of_desc[d] for d, _ in self.scope]
-                    bad = [h for h in after if h not in exp or after[h] != exp[h]] + [h for h in top if h not in after] + \
-                          [h for h in before if h not in after]
+                    top = [it.hash_of_desc[d] for d, _ in self.scope] if not blocked else []
+                    bad = [h for h in after if (h not in exp and h not in before) or (h in exp and after[h] != exp[h])] + \
+                          [h for h in top if h not in after] + [h for h in before if h not in after]
                     if bad:
                         self.viol('after jug execute a compound (or another task) is missing or has a value different from '
                                   'the plain evaluation of its builder', keys=sorted(set(bad)), expected=sorted(exp.items()),
@@ -309,16 +342,21 @@ class SeqRun:
                 '; '.join(str(it.hash_id(h)) for h in executed), lg.coq_store(sorted(after.items()), it), natlit(nc), natlit(ni)))
             metas.append({'op': op, 'tasks': tasks, 'hasbarrier': hb, 'executed': executed, 'store_after': sorted(after.items())})
             ck.count('step: %s%s' % (op, ' (file)' if backend == 'file' else ''))
-            if op in ('load', 'phase', 'cleanup'):
+            if blocked:
+                ck.count('steps with locks of others present')
+            if op in ('load', 'phase', 'cleanup', 'cleanup_keep'):
                 ncoll = sum(1 for h in self.comp_hashes if h in before and h in tasks)
                 nexp = sum(1 for h in self.comp_hashes if h not in before and h in tasks)
                 if ncoll:
                     ck.count('loads with a collapsed compound')
+                if any(h in blocked and h in before and h in tasks for h in self.comp_hashes):
+                    ck.count('loads with a collapsed compound whose lock is held / failed')
                 if nexp:
                     ck.count('loads with an expanded compound')
-        lit = '(%s,\n %s,\n [%s])' % (self.term, lg.coq_store(start, it), ';\n  '.join(steps))
+        lk = '[%s]' % '; '.join(str(it.hash_id(h)) for h in sorted(set(held) | set(failed)))
+        lit = '(%s,\n %s,\n %s,\n [%s])' % (self.term, lg.coq_store(start, it), lk, ';\n  '.join(steps))
         meta = dict(ctx0, steps=metas)
-        ck.distinct((self.term, lg.coq_store(start, it), tuple(ops)), bool(self.comp_hashes))
+        ck.distinct((self.term, lg.coq_store(start, it), lk, tuple(ops)), bool(self.comp_hashes))
         return lit, meta, len(steps)
 
 
@@ -338,20 +376,50 @@ def start_states(sr, rng):
     return states
 
 
+JUNK = '0123456789abcdef0123456789abcdef01234567'      # a key no task of any generated program has
+
+
+def lock_state(sr, start, rng):
+    """(name, held, failed): locks other workers hold / have marked failed when the sequence starts"""
+    r = rng.random()
+    allh = [h for h, _ in sr.R]
+    # hashes of tasks of branches the sequential run does not take, too
+    other = [h for h in sr.it.id_of_hash if h not in set(allh)]
+    have = set(h for h, _ in start)
+    if r < 0.5 or not allh:
+        return 'none', [], []
+    if r < 0.68:
+        # a worker was killed after storing the value of a compound, before releasing its lock (or is between the two)
+        st = [h for h in sr.comp_hashes if h in have] or list(sr.comp_hashes)
+        return 'stale locks on compounds', sorted(set(h for h in st if rng.random() < 0.8) or set(st[:1])), []
+    if r < 0.76:
+        st = [h for h in sr.comp_hashes if rng.random() < 0.7] or list(sr.comp_hashes[:1])
+        return 'failed locks on compounds', [], sorted(set(st))
+    pool = allh + other[:3]
+    k = rng.choice([1, 1, 2, 3])
+    pick = rng.sample(pool, min(k, len(pool)))
+    if r < 0.88:
+        return 'held on any hashes', sorted(pick), []
+    if r < 0.94:
+        return 'failed on any hashes', [], sorted(pick)
+    cut = rng.randrange(len(pick) + 1)
+    return 'held and failed', sorted(pick[:cut]), sorted(pick[cut:])
+
+
 def gen_ops(rng):
     n = rng.choice([3, 4, 4, 5, 6])
     ops = []
     for i in range(n):
-        ops.append(rng.choice(['load', 'phase', 'phase', 'execute', 'cleanup', 'cleanup']))
-    if 'cleanup' not in ops:
-        ops[rng.randrange(n)] = 'cleanup'
+        ops.append(rng.choice(['load', 'phase', 'phase', 'execute', 'cleanup', 'cleanup_keep', 'cleanup_keep']))
+    if 'cleanup' not in ops and 'cleanup_keep' not in ops:
+        ops[rng.randrange(n)] = rng.choice(['cleanup', 'cleanup_keep'])
     return ops + ['load']
 
 
 def run(ck):
     ck.prove()
     ck.trusted_base = core.DEFAULT_TRUSTED_BASE + [
-        'C18: one worker; task identifiers are the real hashes predicted with jug.task.Task(...).hash() on stub functions '
+        'C18: one worker (what others leave behind enters as start stores and as locks held / marked failed on any hash); task identifiers are the real hashes predicted with jug.task.Task(...).hash() on stub functions '
         '(the probe hash of a compound is Task(builder, args).hash()); values are integers mod 3 and pairs; builders '
         'return a task, a nested compound, a tuple of tasks and constants, or a constant',
     ]
@@ -395,13 +463,19 @@ def run(ck):
                         q = rng.randrange(len(start))
                         start[q] = (start[q][0], perturb(start[q][1], rng))
                         ck.count('start: with a non-sequential value')
+                    if rng.random() < 0.08:
+                        start.append((JUNK, rng.randrange(lg.M)))
+                        ck.count('start: with a key no task has')
                     backend = 'file' if (len(cases) % 5 == 3) else 'dict'
-                    res = sr.run(start, gen_ops(rng), backend, root)
+                    lname, held, failed = lock_state(sr, start, rng)
+                    res = sr.run(start, gen_ops(rng), backend, root, held, failed)
                     ck.count('start: %s' % sname)
+                    ck.count('locks: %s' % lname)
                     if res is None:
                         continue
                     lit, meta, k = res
                     meta['start_kind'] = sname
+                    meta['locks_kind'] = lname
                     cases.append(lit)
                     metas.append((sr, meta))
                     nsteps += k
@@ -427,6 +501,7 @@ def run(ck):
         ck.violation({'kind': 'correspondence', 'what': 'compound: model and jug disagree on a load/execute/cleanup sequence',
                       'program': sr.name, 'prog': sr.prog, 'jugfile': lg.render_python(sr.prog), 'interning': sr.it.table(),
                       'start': meta['start'], 'backend': meta['backend'], 'ops': meta['ops'], 'steps': meta['steps'],
+                      'held': meta['held'], 'failed': meta['failed'],
                       'coq_case': cases[i]})
     ck.case_total = nsteps
 
@@ -449,7 +524,10 @@ def replay(obj):
             print(lg.render_python(prog)[len(lg.PRELUDE):])
             print('sequential values:', [(it.desc_id(d), v) for d, v in log])
             start = [(h, tuplify(v)) for h, v in obj.get('start', [])]
-            res = sr.run(start, obj.get('ops', ['load', 'execute', 'load', 'cleanup', 'load']), obj.get('backend', 'dict'), root)
+            res = sr.run(start, obj.get('ops', ['load', 'execute', 'load', 'cleanup', 'load']), obj.get('backend', 'dict'), root,
+                         obj.get('held', []), obj.get('failed', []))
+            if obj.get('held') or obj.get('failed'):
+                print('locks of others: held', [it.hash_id(h) for h in obj.get('held', [])], 'failed', [it.hash_id(h) for h in obj.get('failed', [])])
             if res is not None:
                 for st in res[1]['steps']:
                     print(' %-8s tasks %s hasbarrier %s executed %s store %s' % (
@@ -463,7 +541,7 @@ def replay(obj):
             else:
                 os.environ['HOME'] = home
     for o in ck.found:
-        print('VIOLATED on the real code:', o.get('what'), dict((k, o[k]) for k in ('compound', 'marker', 'keys', 'executed', 'step') if k in o))
+        print('VIOLATED on the real code:', o.get('what'), dict((k, o[k]) for k in ('compound', 'marker', 'keys', 'executed', 'step', 'locks_before', 'locks_after') if k in o))
         rc = 1
     if res is None:
         return 1
